@@ -79,17 +79,29 @@ Definition eat_pair (o c : char) (s : str) : option nat :=
   end.
 
 (* ------------------------------------------------------------------ utils.py *)
+(* name_start_char / name_char: the complete productions [4] NameStartChar and [4a] NameChar of XML 1.0
+   (5th edition) section 2.3, alternative by alternative in the order of the code (Python strings are
+   sequences of code points, so the astral range is an ordinary range).  `is_number` is str.isdecimal:
+   wider than [0-9], but every other decimal digit is a NameStartChar already (proofs/XmlNames.v). *)
 Definition name_start_char (c : char) : bool :=
   is_alpha c || (c =? c_colon) || (c =? c_under)
-  || in_range 192 214 c      (* 0xC0 .. 0xD6 *)
-  || in_range 216 246 c      (* 0xD8 .. 0xF6 *)
-  || in_range 248 767 c      (* 0xF8 .. 0x2FF *)
-  || in_range 880 893 c      (* 0x370 .. 0x37D *)
-  || in_range 895 8191 c.    (* 0x37F .. 0x1FFF *)
+  || in_range 192 214 c          (* 0xC0 .. 0xD6 *)
+  || in_range 216 246 c          (* 0xD8 .. 0xF6 *)
+  || in_range 248 767 c          (* 0xF8 .. 0x2FF *)
+  || in_range 880 893 c          (* 0x370 .. 0x37D *)
+  || in_range 895 8191 c         (* 0x37F .. 0x1FFF *)
+  || in_range 8204 8205 c        (* 0x200C .. 0x200D *)
+  || in_range 8304 8591 c        (* 0x2070 .. 0x218F *)
+  || in_range 11264 12271 c      (* 0x2C00 .. 0x2FEF *)
+  || in_range 12289 55295 c      (* 0x3001 .. 0xD7FF *)
+  || in_range 63744 64975 c      (* 0xF900 .. 0xFDCF *)
+  || in_range 65008 65533 c      (* 0xFDF0 .. 0xFFFD *)
+  || in_range 65536 983039 c.    (* 0x10000 .. 0xEFFFF *)
 Definition name_char (c : char) : bool :=
   name_start_char c || (c =? c_dash) || (c =? c_dot) || is_number c
-  || (c =? 183)              (* 0xB7 *)
-  || in_range 768 879 c.     (* 0x300 .. 0x36F *)
+  || (c =? 183)                  (* 0xB7 *)
+  || in_range 768 879 c          (* 0x300 .. 0x36F *)
+  || in_range 8255 8256 c.       (* 0x203F .. 0x2040 *)
 
 Definition ident (s : str) : option nat :=
   match s with
